@@ -3,6 +3,7 @@ package main
 // SMT term construction (s-expression strings) and solver racing.
 
 import (
+	"strconv"
 	"bytes"
 	"context"
 	"fmt"
@@ -163,8 +164,13 @@ func sMulC(a string, c int64) string {
 	if c == 1 {
 		return a
 	}
-	if c == 0 {
+	if c == 0 || a == "0" {
 		return "0"
+	}
+	if isNumLit(a) {
+		if n, err := strconv.ParseInt(a, 10, 64); err == nil && n < 1<<31 && c < 1<<31 {
+			return sInt(n * c)
+		}
 	}
 	return app("*", sInt(c), a)
 }
